@@ -253,6 +253,20 @@ impl BlockingManager {
         all_expired
     }
     
+    /// Read-only snapshot of every registration: (db, key, conn ids in queue order)
+    #[cfg(ferrous_verif)]
+    pub fn verif_snapshot(&self) -> (Vec<(usize, Vec<u8>, Vec<u64>)>, usize) {
+        let mut out = Vec::new();
+        for (db, registry) in self.registries.iter().enumerate() {
+            let guard = registry.read().unwrap();
+            for (key, clients) in guard.blocked_on_key.iter() {
+                out.push((db, key.clone(), clients.iter().map(|c| c.conn_id).collect()));
+            }
+        }
+        out.sort();
+        (out, self.wake_queue.len())
+    }
+    
     /// Get a reference to the wake queue for checking if work is available
     pub fn has_pending_wakeups(&self) -> bool {
         !self.wake_queue.is_empty()
